@@ -232,6 +232,12 @@ def fill_block(rng, x, dotted, depth, exotic):
         if r < 0.85:
             return fill_block(rng, x / 2, False, depth + 1, exotic) + fill_block(rng, x, False, depth + 1, exotic)
         return [p for _ in range(3) for p in fill_block(rng, x / 2, False, depth + 1, exotic)]
+    if isinstance(exotic, (list, tuple)) and depth <= 2 and rng.random() < (0.45 if depth == 0 else 0.25):
+        # odd tuplets n:m whose members carry 0-3 dots (reciprocals that are no binary fractions: the float
+        # arithmetic of load_kern is inexact for them)
+        cand = [(n, m) for (n, m) in exotic if F(m, 8) <= x <= 4]      # unit x / m >= a 32nd
+        if cand:
+            return odd_tuplet(rng, x, *rng.choice(cand))
     r = rng.random()
     stop = 0.45 + 0.12 * depth
     if r < stop or x <= MINX:
@@ -269,6 +275,31 @@ def fill_block(rng, x, dotted, depth, exotic):
         tg = rng.getrandbits(30)
         return [(_v_of(x / 2), 1, (3, 2, tg)), (_v_of(x / 4), 0, (3, 2, tg)), (_v_of(x / 2), 0, (3, 2, tg))]
     return [(_v_of(x), 0, None)]
+
+
+ODD_RATIOS = [(3, 2), (5, 4), (6, 4), (7, 4), (5, 2), (9, 8), (10, 8), (11, 8), (12, 8), (13, 8), (15, 8), (17, 16), (19, 16),
+              (21, 16), (23, 16), (25, 16), (27, 16), (29, 16), (31, 16)]
+# pieces of an odd tuplet in 1/8 of the tuplet's unit u: (length, base in the same measure, dots)
+ODD_PIECES = [(16, 16, 0), (24, 16, 1), (28, 16, 2), (30, 16, 3), (8, 8, 0), (12, 8, 1), (14, 8, 2), (15, 8, 3),
+              (4, 4, 0), (6, 4, 1), (7, 4, 2), (2, 2, 0), (3, 2, 1)]
+
+
+def odd_tuplet(rng, x, n, m):
+    """a tuplet of n units in the time of m filling x quarters (x, m powers of two), its members plain or with 1-3 dots:
+    list of (v, d, tup).  The written values add up to n units = x quarters exactly."""
+    u = x / m
+    tg = rng.getrandbits(30)
+    rem = 8 * n
+    out = []
+    while rem > 0:
+        fit = [p for p in ODD_PIECES if p[0] <= rem and rem - p[0] != 1]
+        dotted_fit = [p for p in fit if p[2] > 0]
+        ln, base, d = rng.choice(dotted_fit if dotted_fit and rng.random() < 0.6 else fit)
+        out.append((_v_of(u * base / 8), d, (n, m, tg)))
+        rem -= ln
+    rng.shuffle(out)
+    assert sum((ev_value({"t": "n", "v": v, "d": d, "tup": t}) for v, d, t in out), F(0)) == x, (out, x)
+    return out
 
 
 def fill_length(rng, length, meter, exotic):
@@ -2993,6 +3024,15 @@ def rand_layout(rng):
             "dynam_type": rng.choice(["**dynam", "**dynam", "**text"])}
 
 
+def rand_exotic(r, p_odd=0.3):
+    """the `exotic` argument of gen_asc: False, True (7:4, dotted triplets) or a list of one or two odd tuplet ratios whose
+    members carry dots (see odd_tuplet)"""
+    x = r.random()
+    if x < p_odd:
+        return r.sample(ODD_RATIOS, r.choice([1, 1, 2]))
+    return x < p_odd + 0.15
+
+
 def cases(rng, tier):
     n = {"quick": 160, "thorough": 4000, "search": 1200}.get(tier, 160)
     chord_ties = True       # repaired by fixes/C19-27 (was the open finding F-C19-kern-chord-ties)
@@ -3006,7 +3046,7 @@ def cases(rng, tier):
         seed = rng.getrandbits(48)
         r = random.Random(seed)
         ct = chord_ties and r.random() < 0.3
-        asc = gen_asc(r, exotic=r.random() < 0.2, chord_ties=ct, partial_ties=ct)
+        asc = gen_asc(r, exotic=rand_exotic(r), chord_ties=ct, partial_ties=ct)
         lay = rand_layout(r)
         if lay["split"] and r.random() < 0.6:
             asc = delay_subvoices(asc, r)
@@ -3014,7 +3054,7 @@ def cases(rng, tier):
                "via": r.choice(["load_kern", "load_kern", ".krn", ".kern", ".KRN"])}
         seed = rng.getrandbits(48)
         r = random.Random(seed)
-        asc = gen_asc(r, exotic=r.random() < 0.2, chord_ties=True, partial_ties=r.random() < 0.25)
+        asc = gen_asc(r, exotic=rand_exotic(r, 0.15), chord_ties=True, partial_ties=r.random() < 0.25)
         opt = rand_mei_opt(r, asc)
         if opt["space"]:
             asc = spaces_for_rests(asc, r)
